@@ -179,6 +179,14 @@ def run_case(case: Dict[str, Any]) -> Dict[str, Any]:
     ident = f"first={prog['first']}|sink={prog['sink']}|root={prog['root']}|res={nres}|par={npar}|ops={'+'.join(kinds)}"
     m, src = build(prog, case["seed"])
     inp = inputs(prog, case["seed"])
+    # a model that has been trained / loaded: layers other than Linear / Embedding carry non-trivial affine parameters
+    # (a fresh nn.LayerNorm has weight 1, bias 0, which would hide a re-initialisation of the wrong layers)
+    gen_aff = torch.Generator().manual_seed(case["seed"] + 77)
+    with torch.no_grad():
+        for mod in m.modules():
+            if isinstance(mod, nn.LayerNorm) and mod.bias is not None:
+                mod.bias.add_(torch.randn(mod.bias.shape, generator=gen_aff, dtype=torch.float64).to(mod.bias.dtype) * 0.5 + 0.25)
+                mod.weight.mul_(torch.rand(mod.weight.shape, generator=gen_aff, dtype=torch.float64).to(mod.weight.dtype) + 0.5)
     before = {k: v.clone() for k, v in m.state_dict().items()}
     replace = {}
     import torch.nn.functional as F
@@ -255,6 +263,13 @@ def run_case(case: Dict[str, Any]) -> Dict[str, Any]:
                 viol.append({"key": ident + "|weight_not_unit_initialised", "msg": f"{name}.weight std={mod.weight.std().item()}\n" + src})
             if getattr(mod, "bias", None) is not None and bool((mod.bias != 0).any()):
                 viol.append({"key": ident + "|bias_not_zeroed", "msg": f"{name}.bias\n" + src})
+        else:
+            # "all other operations are untouched": parameters and buffers owned by any other layer are copied as they are
+            for (pn, a), (_, b) in zip(list(mod.named_parameters(recurse=False)) + list(mod.named_buffers(recurse=False)),
+                                       list(mod0.named_parameters(recurse=False)) + list(mod0.named_buffers(recurse=False))):
+                if a.shape != b.shape or not torch.equal(a.detach(), b.detach()):
+                    viol.append({"key": ident + f"|other_layer_reinitialised|{type(mod).__name__}", "msg": f"{name}.{pn} changed by unit_scale()\n" + src})
+                    break
     # ---- reference: the recipe applied by hand on the returned module's parameters
     ref_m, _ = build(prog, case["seed"])
     ref_m.load_state_dict(u.state_dict())
